@@ -10,15 +10,15 @@
     * `outputTail`   ↔ `stepPiece` (append, join, FindStop → TruncateStop → removeSequence(Stop);
                         ContainsStopSuffix hold; IncompleteUnicode hold; flushPending)
     * `fns`          ↔ `St.finish` (flush, then the reason) and `flushChunk`/`trimValid`.
-  The ollamarunner loop is additionally *executed* against the model (L1); the llamarunner loop
-  cannot be (it needs llama.cpp and a model file), so this skeleton is its tie: the two runners
-  differ only in the head (where `numPredicted++` sits and how EOS/piece are obtained); the
+  Both loops are additionally *executed* against the model (L1; the llamarunner loop since round 7, on
+  the real llama.cpp context behind a generated GGUF model), so this skeleton is the second, structural
+  tie: the two runners differ only in the head (where `numPredicted++` sits and how EOS/piece are obtained); the
   `outputTail` and the two helper functions are literally the same statements.
     * `…Handler`     ↔ `handlerLines` (one `content` line per chunk; on close ONE final object with
                         `DoneReason: seq.doneReason` verbatim, `PromptEvalCount: seq.numPromptInputs`,
                         `EvalCount`; on a cancelled request `close(seq.quit)` and no final object) and the
                         request mapping `numPredict: req.Options.NumPredict, stop: req.Options.Stop`.
-                        The ollamarunner handler is executed against the model (L1, command `handler`); the
+                        Both handlers are executed against the model (L1, command `handler`); the
                         llamarunner handler differs in the `NewSequence` parameters and reports
                         `EvalCount: seq.numDecoded` (incremented once per sampled token, like `numPredicted`).
   A change of the call order, of a condition, of a reason, or a new statement touching the output
